@@ -1,12 +1,12 @@
 package harness
 
 import (
-	"strings"
 	"fmt"
 	"net/http"
 	"os"
 	"path/filepath"
 	"strconv"
+	"strings"
 	"testing"
 )
 
@@ -107,18 +107,38 @@ func TestE2E(t *testing.T) {
 		if os.Getenv("VERIF_FAULTS") != "" {
 			// the same history with store operations failing (monitor only: the model's store does not fail).
 			// Plan 0: random operations; plan 1: an operation of a background revalidation when there is one
-			// (the re-read of the entry, the index read, a write), else random again.
+			// (the re-read of the entry, the index read, a write), else random again; plan 2: below.
 			var bgOps []opInfo
 			for _, o := range ops {
 				if o.Bg {
 					bgOps = append(bgOps, o)
 				}
 			}
-			for rep := 0; rep < 2; rep++ {
+			// Plan 2: exactly one failing write (a Set or a Delete, chosen uniformly among the writes of the history) and
+			// nothing else: every write site singly — the entry or the index of a miss, of a foreground 304 write-back, of a
+			// replacement, of a background write-back, a delete of an invalidation.
+			var writeOps []opInfo
+			for _, o := range ops {
+				if o.Op == "set" || o.Op == "del" {
+					writeOps = append(writeOps, o)
+				}
+			}
+			for rep := 0; rep < 3; rep++ {
 				fc := *c
 				fc.ID = fmt.Sprintf("%s~f%d", c.ID, rep)
 				fc.Stream = "W"
 				fc.Faults = nil
+				if rep == 2 {
+					if len(writeOps) == 0 {
+						continue
+					}
+					o := writeOps[g.intn(len(writeOps))]
+					fc.Faults = []FaultSpec{{N: o.N, Kind: "err"}}
+					_ = os.WriteFile(current, []byte(fc.Encode()), 0o644)
+					cases = append(cases, fc.Encode())
+					impl = append(impl, runCase(t, &fc, ropts)...)
+					continue
+				}
 				if rep == 1 && len(bgOps) > 0 {
 					o := bgOps[g.intn(len(bgOps))]
 					kind := "err"
